@@ -22,6 +22,11 @@ func (c *Curator) reconstructChunk(id core.RSChunkID, badIds []core.TractserverI
 	n := chunk.DataLength()
 	m := chunk.HostsLength() - n
 
+	// chunk is a view into the database whose read transaction has already
+	// ended. Copy what we need after the (long) RSEncode RPC now: a metadata
+	// write in between may recycle the page the view points into.
+	newHosts := fb.HostsList(chunk)
+
 	// Figure out what TSIDs we're keeping in the set. Note that this will end
 	// up in the same order as Hosts, data followed by parity.
 	var okIds []core.TractserverID
@@ -88,7 +93,6 @@ func (c *Curator) reconstructChunk(id core.RSChunkID, badIds []core.TractserverI
 	}
 
 	// Commit new hosts.
-	newHosts := fb.HostsList(chunk)
 	for i, idx := range dstIdx {
 		if idx >= 0 {
 			newHosts[idx] = dstIds[i]
